@@ -287,6 +287,13 @@ def eq(decoded, inp):
                 all(eq(a, b) for a, b in zip(decoded, items))
         except Exception:  # noqa
             return False
+    # a number that comes back as another kind of number has been changed
+    # (2 -> 2.0 compares equal and is not the value that was given); bool is
+    # Python's own subtype of int and is left to ordinary equality
+    kinds = (float, decimal.Decimal)
+    for kind in kinds:
+        if isinstance(decoded, kind) != isinstance(inp, kind):
+            return False
     try:
         return bool(decoded == inp)
     except Exception:  # noqa
@@ -837,6 +844,8 @@ def tasks(tier, seed):
            ('surrogates',)]
     out += [('dense', k) for k in DENSE]
     out += [('astronomic', k) for k in ASTRONOMIC]
+    from mc import values
+    out += [('homog', k) for k in range(len(values.HOMOG))]
     out += [('method', m.name) for m in spec_table.METHODS if m.args]
     return out
 
@@ -849,6 +858,18 @@ def run(task, ctx):
         check_bit(ctx)
     elif kind == 'astronomic':
         check_astronomic(ctx, task[1])
+    elif kind == 'homog':
+        # arrays / tables of n elements of one kind with one element of
+        # another kind somewhere, n through every interior size threshold
+        from mc import values
+        p = lib.pamqp()
+        for v in values.homogeneous(task[1], ctx.tier):
+            if isinstance(v, dict):
+                judge(ctx, 'encode.field_table', v, p.encode.field_table,
+                      p.decode.field_table)
+            else:
+                judge(ctx, 'encode.field_array', v, p.encode.field_array,
+                      p.decode.field_array)
     elif kind == 'surrogates':
         check_surrogates(ctx)
     elif kind == 'envelope':
